@@ -188,6 +188,9 @@ class Be(Family):
     shards = 16
 
     def one(self, rng, malformed, maxlen):
+        return encode_case(*self.one_raw(rng, malformed, maxlen))
+
+    def one_raw(self, rng, malformed, maxlen):
         g = Gen(rng)
         feat = rng.choice([W.VF_PROTOCOL_FEATURES, W.VF_PROTOCOL_FEATURES | W.VF_LOG_ALL | 0x3, 0, rng.next()])
         pfeat = rng.choice([W.PF_ALL, rng.next() & W.PF_ALL, 0, rng.next()])
@@ -209,7 +212,7 @@ class Be(Family):
         if malformed and rng.chance(1, 6):
             msgs.append((bytes(rng.below(256) for _ in range(1 + rng.below(40))), g.fds(rng.below(3))))
         outcomes = [(0 if rng.chance(3, 4) else rng.choice([1, 1, 2])) for _ in range(len(msgs) + 2)]
-        return encode_case(feat, pfeat, outcomes, [(b, f) for b, f in msgs if len(b) > 0])
+        return feat, pfeat, outcomes, [(b, f) for b, f in msgs if len(b) > 0]
 
     def generate(self, rng, tier):
         out = []
